@@ -375,12 +375,12 @@ def tail_errors(out, n=60):
 PLAYBACK_RE = re.compile(r"Concrete playback unit test for `([^`]+)`:\n```\n(.*?)\n```", re.S)
 
 
-def kani_counterexample(scratch_repo, pkg, harness, timeout_s=600, tests=False, features=None):
+def kani_counterexample(scratch_repo, pkg, harness, timeout_s=600, tests=False, features=None, flags=()):
     """Re-run one failing harness with concrete playback; return the generated unit test text."""
     # counterexample extraction always uses a SAT back end: CBMC cannot read float models back from
     # the SMT2 solvers (flatten2bv invariant), and finding a model is the easy direction for SAT.
     r = run_kani(scratch_repo, pkg, [harness], timeout_s=timeout_s, jobs=1, tests=tests, playback=True,
-                 extra=["--no-assert-contracts", "--solver", "cadical"], features=features)
+                 extra=["--no-assert-contracts", "--solver", "cadical"] + [f for f in flags if not f.startswith("--features=")], features=features)
     tests_found = PLAYBACK_RE.findall(r["stdout"])
     out = []
     for (h, t) in tests_found:
